@@ -148,7 +148,7 @@ def check_core(ctx) -> None:
         while not isinstance(st, ast.stmt):
             st = parent(st)
         tg = [norm(e) for e in st.targets[0].elts] if isinstance(st, ast.Assign) and isinstance(st.targets[0], ast.Tuple) else []
-        ctx.check(tg == ['self.ElectricityProduced.value', 'self.HeatExtracted.value', 'self.HeatProduced.value', 'HeatExtractedTowardsElectricity'],
+        ctx.check(tg[:3] == ['self.ElectricityProduced.value', 'self.HeatExtracted.value', 'self.HeatProduced.value'] and len(tg) == 4 and tg[3].isidentifier(),
                   'F1', f'{cn}.Calculate/heat-balance-unpack', f'{grel}:{c.lineno}', f'results unpacked into {tg}')
         # Tinj handed over must be read after the plant's own reinjection override (the reported value)
         tinj_writes = [s for s in g.node.body if isinstance(s, ast.Assign) and 'model.wellbores.Tinj.value' in
